@@ -431,6 +431,49 @@ pub fn run_c14(ctx: &mut RunCtx<'_>) -> Option<Violation> {
     if mode == 1 && ctx.tier == Tier::Thorough || mode == 1 && ctx.ch.draw(0, 4) == 0 {
         return enumerate_fault_points(ctx, &corpus, &is_lifted);
     }
+    if mode == 2 {
+        // T-NEST: a definition nested k levels deep is added to a corpus module (before its last END),
+        // optionally followed by one ordinary text fault. Every stage of the pipeline is recursive over
+        // the nesting of a type; the depths stay far below the ~20 000 levels at which the recursive
+        // descent parser is known to exhaust an 8 MiB stack (DESIGN 9).
+        let mut l = Lane::new(ctx.ch, 1);
+        let (name, text) = corpus[l.draw(corpus.len() as u64) as usize];
+        let mut text = text.to_string();
+        const DEPTHS: &[usize] = &[2, 5, 17, 60, 200, 600];
+        let k = DEPTHS[l.draw(DEPTHS.len() as u64) as usize];
+        let form = l.draw(6);
+        let (open, leaf, close): (&str, &str, &str) = match form {
+            0 => ("SEQUENCE OF ", "INTEGER (0..7)", ""),
+            1 => ("SET (SIZE(0..3)) OF ", "BOOLEAN", ""),
+            2 => ("SEQUENCE { f ", "UTF8String", " OPTIONAL, ... }"),
+            3 => ("CHOICE { c ", "NULL", ", d BOOLEAN }"),
+            4 => ("SET { s [1] ", "OCTET STRING", ", t [0] INTEGER DEFAULT 3 }"),
+            // mixed: list of a structure with one alternative being the next level
+            _ => ("SEQUENCE OF CHOICE { x SEQUENCE { y ", "ENUMERATED { a, b }", " } }"),
+        };
+        let def = format!("\nVerifNest ::= {}{}{}\n", open.repeat(k), leaf, close.repeat(k));
+        let sp = spans(&text);
+        let at = sp.iter().rev().find(|(s, e)| &text[*s..*e] == "END").map(|(s, _)| *s).unwrap_or(text.len());
+        text.insert_str(at, &def);
+        ctx.counters.inc("fault.T-NEST");
+        ctx.counters.inc(&format!("c14.nest.depth_{k}"));
+        let mut texts = vec![text];
+        let mut extra = None;
+        if l.draw(3) == 0 {
+            let kind = TEXT_KINDS[l.draw(TEXT_KINDS.len() as u64) as usize];
+            extra = apply_text_fault(kind, &mut texts[0], &mut l);
+            if let Some(a) = &extra {
+                ctx.counters.inc(&format!("fault.{}", a.kind));
+            }
+        }
+        ctx.note(|| format!("module {name}; T-NEST: form {form} depth {k}; then {:?}", extra.as_ref().map(|a| format!("{}: {}", a.kind, a.text))));
+        if !is_lifted("D14") && has_type_cycle(&texts[0]) {
+            ctx.counters.inc("known.D14.redirected_draws");
+            return None;
+        }
+        ctx.log.ev("E", "nest", k as u64, || format!("{name} form {form}"));
+        return run_pipeline_checked(ctx, &texts, &format!("{name} + {k} nesting levels (form {form})"));
+    }
     // 1-3 modules, 1-4 text faults
     let nmod = match ctx.ch.draw(0, 6) {
         0 => 2,
